@@ -7,6 +7,9 @@
 //   c06_noreuse  real multi-batch DZKP validation (many proof batches, each drawing its PRSS indices from its own
 //                reserved range) in a debug build: the implementation's own reuse detector must stay silent
 //   c06_usedset  the debug-build detectors: same (step, index, offset) drawn twice, indexed vs sequential misuse
+//   c06_race     the detector under CONCURRENT callers: T OS threads released together draw the same fresh index
+//                from one generator (real `Generator::generate` -> `UsedSet::use_index`), R rounds; exactly one
+//                draw per round may be accepted
 // (c06_pack lives in hooks/context.rs: PrssIndex128 is visible only inside crate::protocol.)
 use std::collections::HashSet;
 
@@ -377,5 +380,87 @@ fn verif_c06_noreuse() {
             out
         },
         exec_noreuse,
+    );
+}
+
+
+// ---- the reuse detector under concurrent callers ----
+//
+//   c06.race <left|right|both> <T> <R> <seed>  ->  accepted=<total> rounds=<R>
+//
+// One endpoint (seeded), one gate, ONE `IndexedSharedRandomness` shared by T OS threads. In round r every thread
+// waits on a spin barrier and then draws index r: `left` / `right` through `generate_chunks_one_side::<_, U1>` (one
+// `Generator::generate` call, i.e. one `UsedSet::use_index(r:0)`), `both` through `generate_values` (left, then
+// right generator). A draw that returns counts as accepted; a draw the detector refuses panics (caught). Every
+// index is fresh when its round starts, so exactly ONE of the T concurrent draws must be accepted:
+// accepted == rounds, whatever the scheduling (theorem `exactly_one_accept`) — deterministic on a correct tree.
+// A detector whose test and insert are not one critical section lets two threads through in some rounds.
+#[cfg(debug_assertions)]
+fn exec_race(req: &str) -> String {
+    use std::{
+        panic::{AssertUnwindSafe, catch_unwind},
+        sync::atomic::{AtomicUsize, Ordering},
+    };
+    let t: Vec<&str> = req.split(' ').collect();
+    assert_eq!(t[0], "c06.race");
+    let side = t[1];
+    let threads: usize = t[2].parse().unwrap();
+    let rounds: usize = t[3].parse().unwrap();
+    let seed: u64 = t[4].parse().unwrap();
+    assert!(threads >= 1 && threads <= 64 && rounds <= (1 << 24), "harness: bad race parameters");
+    let mut rng = Rng(seed);
+    let ps = make_participants(&mut rng);
+    let g = gate("c06race");
+    let prss = ps[0].indexed(&g);
+    let arrived = AtomicUsize::new(0);
+    let accepted = AtomicUsize::new(0);
+    std::thread::scope(|s| {
+        for _ in 0..threads {
+            s.spawn(|| {
+                for r in 0..rounds {
+                    // spin barrier: all threads leave it within a few nanoseconds of each other
+                    arrived.fetch_add(1, Ordering::SeqCst);
+                    let mut spins = 0u32;
+                    while arrived.load(Ordering::Acquire) < threads * (r + 1) {
+                        spins += 1;
+                        if spins % 4096 == 0 {
+                            std::thread::yield_now();
+                        } else {
+                            std::hint::spin_loop();
+                        }
+                    }
+                    let index = r as u32;
+                    let ok = catch_unwind(AssertUnwindSafe(|| match side {
+                        "left" => drop(prss.generate_chunks_one_side::<_, U1>(index, Direction::Left).next()),
+                        "right" => drop(prss.generate_chunks_one_side::<_, U1>(index, Direction::Right).next()),
+                        "both" => drop(prss.generate_values(index)),
+                        k => panic!("harness: unknown side {k}"),
+                    }))
+                    .is_ok();
+                    if ok {
+                        accepted.fetch_add(1, Ordering::SeqCst);
+                    }
+                }
+            });
+        }
+    });
+    format!("accepted={} rounds={rounds}", accepted.load(Ordering::SeqCst))
+}
+
+// `UsedSet` exists in debug builds only: no detector, no suite (the check then reports the missing trace).
+#[cfg(debug_assertions)]
+#[test]
+fn verif_c06_race() {
+    run_suite(
+        "c06_race",
+        |rng, thorough| {
+            let k = if thorough { 20 } else { 1 };
+            let mut out = vec![];
+            for (side, threads, rounds) in [("left", 4usize, 5000usize), ("right", 2, 2000), ("both", 3, 1000), ("left", 8, 500), ("right", 1, 100)] {
+                out.push(format!("c06.race {side} {threads} {} {}", rounds * k, rng.below(1 << 40)));
+            }
+            out
+        },
+        exec_race,
     );
 }
